@@ -30,7 +30,7 @@ Judge(e) ==
         LET req == [scheme |-> q.scheme, host |-> ReqHosts[q.hi].chars, path |-> ReqPaths[q.pi]]
             front == IF q.scheme = "http" THEN e.routing.http ELSE e.routing.https
             got == Route(front, backends, req)
-            exp == Expected(g, e.routing.defaultsvc, req, ReqHosts[q.hi].name)
+            exp == Expected(g, e.routing.defaultsvc, req, ReqHosts[q.hi].name, ReqHosts[q.hi].wild)
         IN IF got \in exp THEN {}
            ELSE {[tr |-> e.tr, step |-> e.step, inv |-> "RouteOK", scheme |-> q.scheme, host |-> ReqHosts[q.hi].name,
                   path |-> ReqPaths[q.pi], got |-> got, expected |-> exp]}
